@@ -28,16 +28,18 @@ func (e *pvErr) Error() string { return "pv:" + strconv.Itoa(e.v) }
 // Run is one lane under observation: the recorder of its history and the handles of everything
 // the scenario started.
 type Run struct {
-	Name       string
-	N, Q       int
-	G          *Gate
-	L          *tasklane.TaskLane
-	timeout    time.Duration
-	panicNilPV int          // value id shared by the panic(nil) tasks of this run
-	nilTaskPV  int          // value id shared by the nil Tasks of this run (their "panic" is the lane's nil dereference)
-	ForceM     bool         // histories with synthesized events go to the monitors only
-	rawStarts  atomic.Int64 // Start() calls of an unrecorded run
-	Record     bool         // false: no events (pure race hunting, no synchronisation added by the recorder)
+	Name        string
+	N, Q        int
+	G           *Gate
+	L           *tasklane.TaskLane
+	timeout     time.Duration
+	panicNilPV  int // value id shared by the panic(nil) tasks of this run
+	nilTaskPV   int // value id shared by the nil Tasks of this run (their "panic" is the lane's nil dereference)
+	nilShown    any // LastPanic value attributed to the nil tasks
+	nilShownSet bool
+	ForceM      bool         // histories with synthesized events go to the monitors only
+	rawStarts   atomic.Int64 // Start() calls of an unrecorded run
+	Record      bool         // false: no events (pure race hunting, no synchronisation added by the recorder)
 
 	mu      sync.Mutex
 	evs     []string
@@ -119,6 +121,7 @@ type Task struct {
 	pval     any
 	once     sync.Once
 	panicNil bool          // Start() does panic(nil)
+	nilSlot  int           // index of the reserved S/F place of an accepted nil task
 	isNil    bool          // the value handed to PushTask is the nil Task; this record only carries its id
 	kind     string        // dynamic type of the value handed to PushTask (kinds.go)
 	wrap     tasklane.Task // the value pushed instead of the *Task itself, nil = the pointer
@@ -167,6 +170,9 @@ func (r *Run) NewPanicNilTask() *Task {
 		r.panicNilPV = r.nextPV
 	}
 	t.pv, t.panicNil = r.panicNilPV, true
+	if PanicNilIsNil {
+		r.ForceM = true
+	}
 	return t
 }
 
@@ -186,17 +192,63 @@ func (r *Run) NewNilTask() *Task {
 	return t
 }
 
-// MarkNilRan records S/F for a nil task that the lane is known (through Status) to have taken and "run".
-func (r *Run) MarkNilRan(t *Task) {
+// NilAccepted reserves the place of an accepted nil task's S/F in the history (at acceptance: the context is live,
+// it will be taken). What the nil task "did" cannot be recorded by the task itself; it is decided later from what
+// Status() shows and filled in with ResolveNil. A place that is never resolved is left out of the history.
+func (r *Run) NilAccepted(t *Task) {
 	r.mu.Lock()
 	defer r.mu.Unlock()
-	if r.nS[t.ID] > 0 {
+	t.nilSlot = len(r.evs)
+	r.evs = append(r.evs, "")
+}
+
+// ResolveNil fills in the outcome of an accepted nil task: it was started and returned (panicked = false: an
+// implementation may substitute a no-op), or it was started and panicked - with the lane's nil dereference or with
+// any value the implementation chose; that value (as shown by LastPanic) becomes the nil tasks' panic value.
+func (r *Run) ResolveNil(t *Task, panicked bool, shown any) {
+	r.mu.Lock()
+	defer r.mu.Unlock()
+	if r.nS[t.ID] > 0 || t.nilSlot < 0 || t.nilSlot >= len(r.evs) {
 		return
 	}
-	r.evs = append(r.evs, "S:"+strconv.Itoa(t.ID), "F:"+strconv.Itoa(t.ID)+":p"+strconv.Itoa(t.pv))
+	out := "ret"
+	if panicked {
+		out = "p" + strconv.Itoa(t.pv)
+		r.nilShown, r.nilShownSet = shown, true
+	}
+	r.evs[t.nilSlot] = "S:" + strconv.Itoa(t.ID) + " F:" + strconv.Itoa(t.ID) + ":" + out
 	r.nS[t.ID]++
 	r.nF[t.ID]++
 }
+
+// sameValue compares two panic values without panicking on uncomparable dynamic types.
+func sameValue(a, b any) (eq bool) {
+	defer func() {
+		if recover() != nil {
+			eq = fmt.Sprintf("%T%v", a, a) == fmt.Sprintf("%T%v", b, b)
+		}
+	}()
+	return a == b
+}
+
+// RawPendingSettles is PendingSettles without recording the polls (used while it is not yet known how a value
+// shown by LastPanic is to be named in the history).
+func (r *Run) RawPendingSettles(want int, d time.Duration) (last int, ok bool) {
+	streak := 0
+	ok = WaitUntil(d, func() bool {
+		last = r.L.Status().PendingTask
+		if last == want {
+			streak++
+		} else {
+			streak = 0
+		}
+		return streak >= 3
+	})
+	return
+}
+
+// RawLastPanic is Status().LastPanic as is (unrecorded).
+func (r *Run) RawLastPanic() any { return r.L.Status().LastPanic }
 
 // NewSamePanicTask: a task that panics with the SAME value (same id, identical interface value) as prev.
 func (r *Run) NewSamePanicTask(prev *Task) *Task {
@@ -243,6 +295,15 @@ func (r *Run) mkPV(v, kind int) any {
 
 // pvID maps a LastPanic value back to its id: -1 for nil (none), -2 for a value no task raised.
 func (r *Run) pvID(x any) int {
+	// the value an accepted nil Task "panicked" with, as first shown by LastPanic (the lane's nil dereference, or
+	// whatever the implementation substitutes)
+	r.mu.Lock()
+	if r.nilShownSet && x != nil && sameValue(x, r.nilShown) {
+		id := r.nilTaskPV
+		r.mu.Unlock()
+		return id
+	}
+	r.mu.Unlock()
 	switch v := x.(type) {
 	case nil:
 		return -1
@@ -277,15 +338,6 @@ func (r *Run) pvID(x any) int {
 		defer r.mu.Unlock()
 		if r.panicNilPV > 0 {
 			return r.panicNilPV
-		}
-	case runtime.Error:
-		// a nil Task is a task that panics when the lane calls its Start(): nil pointer dereference
-		if strings.Contains(v.Error(), "nil pointer dereference") {
-			r.mu.Lock()
-			defer r.mu.Unlock()
-			if r.nilTaskPV > 0 {
-				return r.nilTaskPV
-			}
 		}
 	case *PVStruct:
 		if v == nil {
@@ -340,7 +392,11 @@ func (t *Task) startWith(body func()) {
 		body()
 	}
 	res := "ret"
-	if t.pv >= 0 && !(t.panicNil && PanicNilIsNil) {
+	if t.panicNil && PanicNilIsNil {
+		// recover() will return nil: a panic whose value is nil. An implementation may notice it (LastPanic becomes nil)
+		// or not (LastPanic untouched): value id "nil"; such histories are judged by the monitors only
+		res = "pnil"
+	} else if t.pv >= 0 {
 		res = "p" + strconv.Itoa(t.pv)
 	}
 	if r.Record {
@@ -499,6 +555,10 @@ func (r *Run) doPush(c *PushCall) {
 		}
 	default:
 		res = "other:" + strings.ReplaceAll(err.Error(), " ", "_")
+	}
+	if c.T.isNil && strings.HasPrefix(res, "other:") {
+		// an implementation may refuse a nil Task with an error of its own: a rejected push (never started, no effect)
+		res = "rej"
 	}
 	r.mu.Lock()
 	c.Res = res
@@ -696,5 +756,11 @@ func WaitUntil(d time.Duration, f func() bool) bool {
 func (r *Run) History() string {
 	r.mu.Lock()
 	defer r.mu.Unlock()
-	return fmt.Sprintf("%d %d %s", r.N, r.Q, strings.Join(r.evs, " "))
+	evs := make([]string, 0, len(r.evs))
+	for _, e := range r.evs {
+		if e != "" {
+			evs = append(evs, e)
+		}
+	}
+	return fmt.Sprintf("%d %d %s", r.N, r.Q, strings.Join(evs, " "))
 }
